@@ -57,7 +57,7 @@ def draw_time_grids(draw, n_out, mode=None, allow_tied=True):
 
 
 def draw_ll(draw, n_out=None, n_par=None, kinds=EM_KINDS, p_fixed=0.15, positive_obs=True,
-            max_out=4, max_par=5, mode=None, allow_tied=True):
+            max_out=4, max_par=5, mode=None, allow_tied=True, allow_empty=False):
     if n_out is None:
         n_out = draw(st.integers(1, max_out))
     if n_par is None:
@@ -71,6 +71,11 @@ def draw_ll(draw, n_out=None, n_par=None, kinds=EM_KINDS, p_fixed=0.15, positive
             fixed = {str(j): draw(gen.logu(0.05, 5.0)) for j in sub}
         ems.append(dict(kind=k, fixed=fixed))
     times, mode, tied = draw_time_grids(draw, n_out, mode, allow_tied)
+    if allow_empty and n_out >= 2 and gen.chance(draw, 0.15):
+        # outputs that were never measured (empty observation lists), also in front of measured ones
+        k = draw(st.integers(1, n_out - 1))
+        for o in (list(range(k)) if draw(st.booleans()) else list(draw(st.permutations(list(range(n_out))))[:k])):
+            times[o] = []
     obs = []
     for o in range(n_out):
         n = len(times[o])
@@ -126,6 +131,35 @@ def draw_ll_params(draw, ll, psi_lo=0.1, psi_hi=10.0):
     psi = draw(gen.vec(gen.logu(psi_lo, psi_hi), ll['n_par']))
     sig = draw(gen.vec(gen.logu(0.05, 5.0), sum(ll_n_sigma(ll))))
     return psi + sig
+
+
+def draw_signed_params(draw, ll, params):
+    """Negative mechanistic parameters (negative model outputs, e.g. change-from-baseline biomarkers) where every
+    error model admits them: Gaussian, and constant+multiplicative as long as sigma_base + sigma_rel * ybar > 0 at
+    every measured time (its sigma_base is raised accordingly). Returns the new vector or None."""
+    if any(e['kind'] not in ('gauss', 'cm') or e['fixed'] for e in ll['ems']):
+        return None
+    from vf.analytic_model import ref_outputs
+    n_par = ll['n_par']
+    out = list(params)
+    flip = draw(subset_nonempty(n_par))
+    for j in flip:
+        out[j] = -out[j]
+    pos = n_par
+    for o, e in enumerate(ll['ems']):
+        if e['kind'] == 'cm':
+            if ll['times'][o]:
+                yb = np.real(ref_outputs(np.array(out[:n_par]), np.array(ll['times'][o], dtype=float), ll['n_out']))[o]
+                low = float(min(0.0, np.min(yb)))
+                out[pos] = gen.r6(out[pos] + 1.25 * out[pos + 1] * (-low))
+            pos += 2
+        else:
+            pos += 1
+    return out
+
+
+def subset_nonempty(n):
+    return gen.subset(n, min_size=1)
 
 
 def par_names(ll):
